@@ -131,7 +131,13 @@ SDIhandle_from_id(int32 id, /* IN: an object (file, dim, dataset) ID */
         HGOTO_ERROR(DFE_ARGS, NULL);
 
     /* get the file from top 12 bits*/
-    tmp       = (id >> 20) & 0xfff;
+    tmp = (id >> 20) & 0xfff;
+
+    /* a file id carries the file's slot a second time in its low 16 bits, and
+       that copy is the one file-level calls go on to use: both have to agree */
+    if (typ == CDFTYPE && (id & 0xffff) != tmp)
+        HGOTO_ERROR(DFE_ARGS, NULL);
+
     ret_value = NC_check_id((int)tmp);
 
 done:
